@@ -81,7 +81,13 @@ TReadUnary == /\ E.k = "ReadUnary" /\ Post /\ ReadUnaryAct(Ok)
               /\ Ok => E.out = ReadUnaryOut
 TResetCounter == E.k = "ResetCounter" /\ Post /\ ResetCounter
 TAddRef  == E.k = "AddRef"  /\ Post /\ AddRef(Ok)
-TNextRef == E.k = "NextRef" /\ Post /\ NextRef(Ok)
+TNextRef == E.k = "NextRef" /\ Post /\ NextRef(Ok) /\ ((Ok /\ Has("id")) => E.id = rr + 1)
+TSetBit  == E.k \in {"On", "Off"} /\ Post /\ SetBit(E.n, IF E.k = "On" THEN 1 ELSE 0, Ok)
+\* bits appended to a by-value copy of the object's bit string
+TAlias   == E.k = "AliasWrite" /\ Post /\ Alias
+\* NextRef names the reference it returned, CopyRemaining its bits and references
+TCopyRem == /\ E.k = "CopyRemaining" /\ Post /\ UNCHANGED bvars
+            /\ StrToBits(E.out) = CopyRemainingOut.bits /\ E.outrefs = CopyRemainingOut.refs
 \* text form: the canonical Fift hex of s, and parsing it gives s back
 TFift == /\ E.k = "FiftHex" /\ Post /\ UNCHANGED bvars
          /\ E.out = FiftHex(s) /\ Ok /\ StrToBits(E.back) = s
@@ -93,7 +99,7 @@ TReset == /\ E.k = "Reset" /\ l = seg /\ New(E.cap)
 
 TraceNext == /\ l <= N
              /\ (l # seg => Trace[l].k # "Reset")      \* a segment ends at the next Reset
-             /\ (TReset \/ TWrite \/ TRead \/ TReadUnary \/ TResetCounter \/ TAddRef \/ TNextRef \/ TFift)
+             /\ (TReset \/ TWrite \/ TRead \/ TReadUnary \/ TResetCounter \/ TAddRef \/ TNextRef \/ TFift \/ TSetBit \/ TAlias \/ TCopyRem)
              /\ Consume
 TraceSpec == TraceInit /\ [][TraceNext]_tvars
 
